@@ -287,6 +287,11 @@ def run_tlc(module, cfg, cwd, *, workers=None, timeout=600, simulate=None, depth
     m = re.findall(r"(\d+) states generated, (\d+) distinct states found", out)
     if m:
         r.generated, r.distinct = int(m[-1][0]), int(m[-1][1])
+    else:
+        # simulation mode: "The number of states generated: N" / "Progress: N states checked, T traces generated"
+        ms = re.findall(r"The number of states generated: (\d+)", out)
+        if ms:
+            r.generated = r.distinct = int(ms[-1])
     m = re.search(r"depth of the complete state graph search is (\d+)", out)
     if m:
         r.depth = int(m.group(1))
